@@ -18,6 +18,7 @@ The op-log model runs tell the observers both declared file modes ('a' and 'w').
 Model runs also start with a zero-length call, hand over logs that already hold something (the run's header must
 precede its first row), carry a user field that fails now and then (every row must have as many columns as the header
 announces), and include a dilute box that runs empty (frames of zero atoms are frames too).
+Every third model run hands its Logger object, pointed at another file, to a second simulation whose log is judged too.
 """
 from __future__ import annotations
 
@@ -43,7 +44,7 @@ ASSUMPTIONS = [
     "durability model B: bytes written since the last flush / seek / truncate may be lost entirely or partially (any prefix)",
     "a restart document 'describes the latest state' if it decodes with ASE's JSON codec and carries the current step counter and atom count",
 ]
-REQUIRED = {"logs_with_earlier_content": 4, "observer_calls_checked": 150, "cut_points": 400, "real_kills": 20, "restart_docs_shrunk": 3, "restart_docs_grown": 3, "frames_parsed": 100, "log_rows_checked": 50}
+REQUIRED = {"loggers_handed_to_a_second_simulation": 8, "logs_with_earlier_content": 4, "observer_calls_checked": 150, "cut_points": 400, "real_kills": 20, "restart_docs_shrunk": 3, "restart_docs_grown": 3, "frames_parsed": 100, "log_rows_checked": 50}
 SHARD_TIMEOUT = {"quick": 900, "thorough": 3000}
 
 
@@ -375,6 +376,25 @@ def run_model(spec, rec):
         rec.viol(f"C16/run-raised/{type(ex).__name__}", f"run with observers raised {type(ex).__name__}: {ex}"[:300], wit0)
         return
     judge_run(rec, list(OPLOG), wit0, spec["driver"])
+    if spec["s"] % 3 == 0 and mc.default_logger is not None and not failing:
+        # stage 2 of a sweep: the same Logger object pointed at another file (its documented `file` attribute) and handed to
+        # the next simulation: that file gets its own header and rows
+        lg = mc.default_logger
+        OPLOG.clear()
+        files2 = {"log": OpFile("log"), "traj": OpFile("traj"), "rst": OpFile("rst")}
+        try:
+            lg.file = files2["log"]
+            kw2 = {"logfile": lg, "trajectory": files2["traj"], "logging_interval": spec["li"], "logging_mode": spec.get("fmode", "a")}
+            if not w["driver"].endswith("ForceBias"):
+                kw2["restart_file"] = files2["rst"]
+            mc2, _ = sims.build({**w, "seed": seed + 1}, **kw2)
+            state["snapshot"] = lambda: {"step": int(mc2.step_count), "natoms": len(mc2.atoms)}
+            mc2.run(spec["steps"] // 2)
+        except Exception as ex:  # noqa: BLE001
+            rec.viol(f"C16/run-raised/{type(ex).__name__}/logger-handed-to-the-next-simulation", f"a run with the logger of an earlier simulation raised {type(ex).__name__}: {ex}"[:300], wit0)
+            return
+        rec.count("loggers_handed_to_a_second_simulation")
+        judge_run(rec, list(OPLOG), {**wit0, "stage": "second simulation with the first one's Logger object, file re-assigned"}, spec["driver"])
 
 
 # ----------------------------------------------------------------------------- real kills
